@@ -91,7 +91,7 @@ func (a *authState) decide(file string, op int, a1, a2 string) int {
 			}
 			return sqliteOK
 		}
-		if op == opTransation && a1 == "COMMIT" {
+		if op == opTransation && a1 == "COMMIT" && a.w >= 0 {
 			// nothing was injected so far (the position lies beyond the last read / write of this operation): the COMMIT
 			// fails instead, so that an operation with an armed fault never succeeds (the behaviours continue as after a failure)
 			a.fired, a.what = true, "commit"
